@@ -534,7 +534,9 @@ def c14_transport(ctx, res):
     _write(os.path.join(d, "t.asm"), prog)
     pool = ["step", "s", "si 2", "step into 3", "registers", "r", "print r0", "p x3000", "print ^", "echo marker", "break add x3004",
             "b a loop", "break list", "bl", "continue", "c", "assembly", "a x3001", "move r3 #7", "goto x3002", "eval add r4 r4 #1",
-            "bogus", "print", "si x", "break remove x3004", "reset", "help"]
+            "bogus", "print", "si x", "break remove x3004", "reset", "help",
+            # multi-byte characters: the argument reader and the stdin reader split on bytes/chars differently
+            "echo caf\u00e9", "echo \u20acab", "print \uff12", "echo \U0001F34B lemon", "\u00e9", "echo a\u00e9b"]
     n_scripts = 20 if not ctx.thorough() else 300
     jobs = []
     scripts = []
